@@ -98,6 +98,20 @@ pub fn generate(seed: u64, property: &str, thorough: bool) -> Trace {
                     invs += 1;
                 }
                 1 => steps.push(Step::Accept { node: rw.usize(nodes), inv: rw.usize(invs), tamper: if rw.chance(2, 3) { 0 } else { 1 + rw.usize(4) } }),
+                2 if rw.chance(1, 4) => {
+                    // reuse pattern: an invitee that is already allowed uses one more invitation, then somebody else tries it
+                    let owner = rw.usize(nodes);
+                    let a = (owner + 1 + rw.usize(nodes - 1)) % nodes;
+                    let b = (owner + 1 + rw.usize(nodes - 1)) % nodes;
+                    for who in [a, a, b] {
+                        if who == a && invs > 0 && rw.chance(1, 2) {
+                            steps.push(Step::Invite { owner });
+                            invs += 1;
+                        }
+                        steps.push(Step::Accept { node: who, inv: invs - 1, tamper: 0 });
+                        steps.push(Step::ConnectInvite { owner, invitee: who, inv: invs - 1 });
+                    }
+                }
                 2 => steps.push(Step::ConnectInvite { owner: rw.usize(nodes), invitee: rw.usize(nodes), inv: rw.usize(invs) }),
                 3 => steps.push(Step::ConnectAllowed { a: rw.usize(nodes), b: rw.usize(nodes) }),
                 4 => steps.push(Step::Attack {
@@ -154,6 +168,16 @@ pub fn directed(property: &str) -> Vec<Trace> {
             s.push(Step::Accept { node: 2, inv: 0, tamper: 0 });
             s.push(Step::ConnectInvite { owner: 0, invitee: 2, inv: 0 });
             out.push(mk("C19 consumed invitation offered again after the owner restarted", s));
+            // an invitation used by a peer that is ALREADY allowed is consumed like any other
+            let mut s = base.clone();
+            s.push(Step::Invite { owner: 0 });
+            s.push(Step::Accept { node: 1, inv: 1, tamper: 0 });
+            s.push(Step::ConnectInvite { owner: 0, invitee: 1, inv: 1 });
+            s.push(Step::Accept { node: 2, inv: 1, tamper: 0 });
+            s.push(Step::ConnectInvite { owner: 0, invitee: 2, inv: 1 });
+            out.push(mk("C19 second invitation used by a peer that is already allowed, then offered to another peer", s.clone()));
+            s.insert(6, Step::Restart { node: 0 });
+            out.push(mk("C19 the same, the owner restarting before the second offer", s));
         }
         "C20" => {
             for how in 0..3 {
@@ -420,6 +444,7 @@ fn exec_step(c: &mut Ctx, st: &Step, property: &str) -> Result<(), String> {
             }
             let token = dv::MeetingSecret::derive_token(DERIVE_STRING, &invite_id);
             let before_o = allowed_keys(c, o)?;
+            let accepted_before = c.sides[o].as_ref().unwrap().host.notes.iter().filter(|x| matches!(x, PeerNote::InviteAccepted(k, _) if k == "owned-invite")).count();
             let Some(mut co) = open_conn(c, o, token, vec![])? else {
                 c.w.log.sched(format!("connect-invite n{o}<->n{i}: owner has no such token"));
                 return Ok(());
@@ -439,8 +464,11 @@ fn exec_step(c: &mut Ctx, st: &Step, property: &str) -> Result<(), String> {
             // single use: count how many distinct peers this invitation admitted on the owner
             let uses = c.invite_uses.entry(invite_id).or_insert_with(Vec::new);
             let ikey = c.w.nodes[i].vk.clone();
-            if after_o.contains(&ikey) && !before_o.contains(&ikey) {
-                uses.push(i);
+            // a use = the owner accepted the invitation on this connection (whether or not the peer was already allowed)
+            if (after_o.contains(&ikey) && !before_o.contains(&ikey)) || accepted_o > accepted_before {
+                if !uses.contains(&i) {
+                    uses.push(i);
+                }
             }
             if uses.len() > 1 {
                 c.w.violation("C19", "invite-reused", format!("the invitation created by n{o} admitted {} different peers: {:?}", uses.len(), uses));
